@@ -1790,7 +1790,7 @@ class C15(Check):
     pid = "C15"
     level = "proof"
     prop_modules = ["WntrModel.Props.C15"]
-    extra_targets = ["WntrModel.Model.AmlModel", "WntrModel.Gen.EvaluatorShape"]
+    extra_targets = ["WntrModel.Model.AmlModel", "WntrModel.Gen.EvaluatorShape", "WntrModel.Gen.OverloadShape"]
     manifest = dict(
         category="proof",
         text="Lean theorems (Props/C15.lean) for ALL expression trees, ALL Python operator lists (an operator used twice occurs twice) and ALL "
@@ -1846,6 +1846,8 @@ class C15(Check):
         # from the current C++ / Python sources (Props/C15.lean §12 proves that this table IS the hand-written machine)
         import c15_evalshape
         sh = c15_evalshape.translate()
+        ov = c15_evalshape.translate_overloads()   # Gen/OverloadShape.lean: the `if other == k: return …` shortcuts of ExpressionBase
+        ctx.cov["overload_shape"] = {n: len(sc) for n, sc, fin in ov}
         ctx.cov["evaluator_shape"] = {"opcode_cases": len(sh["cases"]), "cpp_constants": len(sh["consts"]), "OperationEnum": len(sh["enum"]),
                                       "evaluate_updates": len(sh["strides"]["evaluate"][0]),
                                       "csr_updates": len(sh["strides"]["evaluate_csr_jacobian"][0])}
